@@ -1283,7 +1283,13 @@ class AttrParser(BaseParser):
         `parse_optional_builtin_int_or_float_attr`.
         """
         if not isinstance(value, _HexIntegerLiteral):
-            return float(value)
+            try:
+                return float(value)
+            except OverflowError:
+                self.raise_error(
+                    f"Float literal out of range for type {type}",
+                    at_position=span,
+                )
         try:
             raw = value.to_bytes(type.compile_time_size, "little")
         except OverflowError:
